@@ -20,6 +20,18 @@ fn main() {
         for o in obs { println!("{} -> {} {:?} {}", o.toks, o.dump, o.listing, o.detail); }
         return;
     }
+    if args.rest.iter().any(|a| a == "dbg-null") {
+        // loud helper: the directed NULL-column histories one by one with a short deadline; prints the last observation of each
+        let only: Option<String> = std::env::var("ONLY").ok();
+        for job in null_column_jobs(&args, false, "c") {
+            if let Some(o) = &only { if !job.class.starts_with(o.as_str()) { continue; } }
+            let t0 = std::time::Instant::now();
+            let obs = run_history_deadline(&job.cfg, &job.steps, 8);
+            let last = obs.last().unwrap();
+            println!("{} steps={}/{} {:.1}s dead={} {}", job.class, obs.len(), job.steps.len(), t0.elapsed().as_secs_f64(), last.dead, if last.dead { format!("{} | {} | {}", last.dump, last.detail, describe(&job.cfg, &job.steps[..=last.step])) } else { String::new() });
+        }
+        return;
+    }
     quiet_panics();
     DUMP_SEARCH.store(true, std::sync::atomic::Ordering::Relaxed);
     let mut rng = Rng::new(args.seed);
@@ -58,6 +70,9 @@ fn main() {
     }
     // table names that differ only in what sanitize_table_name adds (their column catalogues live in `_meta_columns_<name>`)
     jobs.extend(name_jobs(&args));
+    // columns without a single value in a batch (every wire representation), before / after batches with values
+    jobs.extend(null_column_jobs(&args, null_loss, "c"));
+    jobs.extend(null_random_jobs(&args, &mut rng, &tables, &pool, null_loss));
     let results = par_map(jobs, 8, |job: Job| { let obs = run_history(&job.cfg, &job.steps); (job, obs) });
     if lz4_defect {
         cases.push("probe:compaction-lz4-packed-strings-present", "cfg=4,8388608,1,1,1000,67108864", "MT=[]", LZ4_NOTE);
